@@ -451,7 +451,7 @@ Definition spec_case (k : case) (obs : list tok) : list tok :=
                      | None => fail "harness:unparsable_observation"
                      end
   | KSt _ c ops => match all_some (map parse_robs (items obs)) with
-                   | Some rs => storage_clauses c ops rs
+                   | Some rs => storage_clauses true c ops rs
                    | None => fail "harness:unparsable_observation"
                    end
   end.
